@@ -20,7 +20,11 @@ import (
 // neither color.Black nor color.White, a height other than 1 or an origin other than (0,0)
 // is an error.
 func modules1D(bc barcode.Barcode) ([]bool, error) {
+	probe := probeBeforeBounds(bc)
 	b := bc.Bounds()
+	if err := probe.agrees(bc); err != nil {
+		return nil, err
+	}
 	if b.Min != (image.Point{}) || b.Dy() != 1 || b.Dx() <= 0 {
 		return nil, fmt.Errorf("bounds %v are not (0,0)-(w,1)", b)
 	}
@@ -129,7 +133,11 @@ func accessorsAgree(bc image.Image) error {
 
 // matrix2D reads a plain 2D barcode into rows of modules ([y][x]).
 func matrix2D(bc barcode.Barcode) ([][]bool, error) {
+	probe := probeBeforeBounds(bc)
 	b := bc.Bounds()
+	if err := probe.agrees(bc); err != nil {
+		return nil, err
+	}
 	if b.Min != (image.Point{}) || b.Dy() <= 0 || b.Dx() <= 0 {
 		return nil, fmt.Errorf("bounds %v do not start at (0,0)", b)
 	}
@@ -343,4 +351,43 @@ func sameValue(a, b any) bool {
 		return a == b
 	}
 	return reflect.DeepEqual(a, b)
+}
+
+// big returns 2^shift + add; written this way so that the harness also compiles where int has 32 bits (the checks
+// that use such sizes are not run there).
+func big(shift uint, add int) int { return int(int64(1)<<shift + int64(add)) }
+
+// probeBeforeBounds reads a few pixels of the first row BEFORE the caller's first Bounds() call (every symbol is at
+// least 10 modules wide): an image whose pixels are only drawn once Bounds() (or any other accessor) has been used
+// shows a different picture to a caller that uses the accessors in another order.
+type earlyProbe struct {
+	xs   []int
+	cols []color.Color
+}
+
+func probeBeforeBounds(bc barcode.Barcode) earlyProbe {
+	var p earlyProbe
+	if nilBarcode(bc) {
+		return p
+	}
+	for _, x := range []int{0, 1, 2, 3, 5, 7, 9} {
+		var c color.Color
+		if try(func() { c = bc.At(x, 0) }) == nil {
+			p.xs, p.cols = append(p.xs, x), append(p.cols, c)
+		}
+	}
+	return p
+}
+
+func (p earlyProbe) agrees(bc barcode.Barcode) error {
+	for i, x := range p.xs {
+		var c color.Color
+		if pv := try(func() { c = bc.At(x, 0) }); pv != nil {
+			return fmt.Errorf("At(%d,0) worked before the first Bounds() call and panics after it: %v", x, pv)
+		}
+		if !sameValue(c, p.cols[i]) {
+			return fmt.Errorf("pixel (%d,0) was %v when read before the first Bounds() call and is %v after it: the picture depends on the order in which the accessors are used", x, p.cols[i], c)
+		}
+	}
+	return nil
 }
